@@ -113,10 +113,11 @@ func (k Keeper) FeefromReporterStake(ctx context.Context, reporterAddr sdk.AccAd
 					return err
 				}
 
+				// record what was taken from this validator
 				feeTracker = append(feeTracker, &types.TokenOriginInfo{
 					DelegatorAddress: selectors.delAddr.Bytes(),
 					ValidatorAddress: info.valAddr.Bytes(),
-					Amount:           unbondAmt.TruncateInt(),
+					Amount:           escrowedAmt,
 				})
 				totalTrackedAmount = totalTrackedAmount.Add(escrowedAmt)
 				break
@@ -127,10 +128,11 @@ func (k Keeper) FeefromReporterStake(ctx context.Context, reporterAddr sdk.AccAd
 				if err != nil {
 					return err
 				}
+				// record what was taken from this validator (not what is still to be taken from the next ones)
 				feeTracker = append(feeTracker, &types.TokenOriginInfo{
 					DelegatorAddress: selectors.delAddr.Bytes(),
 					ValidatorAddress: info.valAddr.Bytes(),
-					Amount:           unbondAmt.TruncateInt(),
+					Amount:           escrowedAmt,
 				})
 				totalTrackedAmount = totalTrackedAmount.Add(escrowedAmt)
 
